@@ -108,7 +108,8 @@ theorem unusable_iff_bad_dependency (ctx : Ctx) (tls : Bool) (p : Pol) :
        | .acl | .rl => False
        | .jwt | .basic | .oidc | .apikey => p.dep1.bad = true
        | .imtls => tls = false ∨ ctx ≠ .spec ∨ p.dep1.bad = true
-       | .emtls | .waf => p.dep1.bad = true ∨ p.dep2.bad = true) := by
+       | .emtls => p.dep1.bad = true ∨ p.dep2.bad = true
+       | .waf => p.dep1.bad = true ∨ p.dep2.bad = true ∨ ∃ d ∈ p.extra, d.bad = true) := by
   cases hk : p.kind <;> simp [isError, hk]
   · -- imtls
     constructor
@@ -133,6 +134,8 @@ theorem unusable_iff_bad_dependency (ctx : Ctx) (tls : Bool) (p : Pol) :
       simpa using this
     · intro h _
       simp [h]
+  · -- waf
+    exact or_assoc
 
 /-- **tls_fail_rejects**: an unusable TLS Secret makes the host reject handshakes and never names another certificate. -/
 theorem tls_fail_rejects (secret : Dep) (path : String) (h : secret ≠ .ok) :
@@ -147,10 +150,10 @@ theorem ingress_auth_always_on (secret : Dep) : ingressAuthConfigured true secre
 /-! ### non-vacuity and the documented exception -/
 
 def tbl : String → Option Pol
-  | "rl" => some ⟨.rl, .ok, .ok⟩
-  | "jwt-bad" => some ⟨.jwt, .missing, .ok⟩
-  | "jwt-ok" => some ⟨.jwt, .ok, .ok⟩
-  | "acl" => some ⟨.acl, .ok, .ok⟩
+  | "rl" => some { kind := .rl, dep1 := .ok, dep2 := .ok }
+  | "jwt-bad" => some { kind := .jwt, dep1 := .missing, dep2 := .ok }
+  | "jwt-ok" => some { kind := .jwt, dep1 := .ok, dep2 := .ok }
+  | "acl" => some { kind := .acl, dep1 := .ok, dep2 := .ok }
   | _ => none
 
 example : errorReturn .route true tbl ["rl", "jwt-bad", "acl"] [] = true := by decide
